@@ -25,7 +25,11 @@ def build(tlc_output, out_path):
             ids[k] = len(ids)
         return ids[k]
 
-    for line in tlc_output.splitlines():
+    lines = tlc_output.splitlines()
+    for li, line in enumerate(lines):
+        if line.strip() == '<< "INIT",' and li + 1 < len(lines):
+            # a long initial state is pretty-printed over two lines
+            line = '<<"INIT", ' + lines[li + 1].strip().replace('" >>', '">>')
         if line.startswith('<<"INIT"'):
             v = _payload(line)
             init = sid(v[0])
